@@ -72,6 +72,9 @@ impl<'a> Visitor for ValidatorVisitor<'a> {
     fn visit_enum(&mut self, enum_def: &Enum) {
         validate_common_doc_comments(enum_def, self.diagnostics);
         validate_attributes(enum_def, self.diagnostics);
+        if let Some(underlying_type) = &enum_def.underlying {
+            attribute::validate_attributes_of(underlying_type, self.diagnostics);
+        }
 
         validate_enum(enum_def, self.diagnostics);
     }
@@ -91,6 +94,9 @@ impl<'a> Visitor for ValidatorVisitor<'a> {
     fn visit_interface(&mut self, interface: &Interface) {
         validate_common_doc_comments(interface, self.diagnostics);
         validate_attributes(interface, self.diagnostics);
+        for base_interface in &interface.bases {
+            attribute::validate_attributes_of(base_interface, self.diagnostics);
+        }
 
         validate_inherited_identifiers(
             interface.operations(),
